@@ -253,7 +253,8 @@ class Traces:
             again = list(read_ndjson(rp + ".out"))
             why = _explain(rej)
             for e, e2, w in zip(rej, again, why):
-                if e2.get("out") != e.get("out"):
+                strip = lambda o: {k: v for k, v in (o or {}).items() if k != "stack"}
+                if strip(e2.get("out")) != strip(e.get("out")):
                     raise Infra("event of mode %s is not reproducible; refusing to report\nfirst: %s\nagain: %s" % (
                         g["mode"], json.dumps(e)[:600], json.dumps(e2)[:600]))
                 mm = []
@@ -356,7 +357,7 @@ def c36(res, tier, seed):
     res.exhaustive = True
     t = Traces(res, tier)
     t.add(b, "linked", _nlinked(tier), seed + 7, want="snap")
-    t.add(b, "schemas", 50 if tier == "quick" else 4000, seed, want="snap")
+    t.add(b, "schemas", 50 if tier == "quick" else 4000, seed, want="snap,bsnap")
     t.add(b, "mutants", 100 if tier == "quick" else 10000, seed + 2, want="snap")
     if tier != "quick":
         t.add(build_harness(("desc",), tags="verif,protolegacy"), "linked", 1000, seed, want="snap", tags="verif,protolegacy")
